@@ -9,29 +9,36 @@ namespace SMD.C18
 
 /-- reflection never fails on well-typed data (the wrappers panic on nothing the family contains) -/
 theorem reflect_total (t : GoType) (v : GoVal) (ht : GoVal.hasType t v = true) :
-    (reflectV t v).isSome = true := by
-  sorry
+    (reflectV t v).isSome = true :=
+  reflectV_total v t ht
 
 /-- on the family, encoding/json succeeds as well -/
 theorem json_total_of_family (t : GoType) (v : GoVal) (ht : GoVal.hasType t v = true)
     (hf : t.inFamily = true) (hv : v.inFamily = true) :
-    (jsonV t v).isSome = true := by
-  sorry
+    (jsonV t v).isSome = true :=
+  jsonV_total v t ht hf hv
 
 /-- the reflected value equals the JSON round trip (numbers compared numerically: JSON does not keep
 the int/float distinction of integral values nor the sign of a zero) -/
 theorem reflect_equals_json (t : GoType) (v : GoVal) (r j : Value)
     (ht : GoVal.hasType t v = true) (hf : t.inFamily = true) (hv : v.inFamily = true)
     (hr : reflectV t v = some r) (hj : jsonV t v = some j) :
-    Value.equals r j = true := by
-  sorry
+    Value.equals r j = true :=
+  reflectV_equals v t r j ht hf hv hr hj
+
+/-- non-vacuity: a concrete type and value of the family (inline structs three levels deep, an empty
+omitempty field, a nil embedded pointer, a float32, a []byte, an interface holding a typed slice, a
+`json:"-"` field) satisfy the hypotheses, and both readings produce a value -/
+example : GoVal.hasType C18Ex.exT C18Ex.exV = true ∧ C18Ex.exT.inFamily = true ∧ C18Ex.exV.inFamily = true ∧
+    (reflectV C18Ex.exT C18Ex.exV).isSome = true ∧ (jsonV C18Ex.exT C18Ex.exV).isSome = true := by
+  decide
 
 /-- the fields of a reflected struct come out in ascending order of JSON name without repeats
 (`orderedStructFields`): map iteration and zipping are deterministic -/
 theorem reflect_struct_sorted (fs : List GoField) (vals : List GoVal) (m : List (String × Value))
     (hr : reflectV (.struct fs) (.struct vals) = some (.map m)) :
-    m.Pairwise (fun a b => a.1 < b.1) := by
-  sorry
+    m.Pairwise (fun a b => a.1 < b.1) :=
+  reflectV_struct_sorted fs vals m hr
 
 /-- what omitempty omits is exactly what encoding/json omits (same field, same emptiness): a field is
 present in the reflected struct iff it is present in the JSON round trip -/
@@ -39,7 +46,7 @@ theorem reflect_same_keys_as_json (fs : List GoField) (vals : List GoVal) (m j :
     (ht : GoVal.hasType (.struct fs) (.struct vals) = true)
     (hf : (GoType.struct fs).inFamily = true) (hv : (GoVal.struct vals).inFamily = true)
     (hr : reflectV (.struct fs) (.struct vals) = some (.map m)) (hj : jsonV (.struct fs) (.struct vals) = some (.map j)) :
-    m.map (·.1) = j.map (·.1) := by
-  sorry
+    m.map (·.1) = j.map (·.1) :=
+  reflectV_struct_keys fs vals m j ht hf hv hr hj
 
 end SMD.C18
